@@ -1995,8 +1995,11 @@ class Parallel(Logger):
     def __call__(self, iterable):
         """Main function to dispatch parallel tasks."""
 
+        # len(iterable) can raise: evaluate it before the instance is marked as
+        # running.
+        n_tasks = len(iterable) if hasattr(iterable, "__len__") else None
         self._reset_run_tracking()
-        self.n_tasks = len(iterable) if hasattr(iterable, "__len__") else None
+        self.n_tasks = n_tasks
         self._start_time = time.time()
 
         if not self._managed_backend:
